@@ -16,6 +16,8 @@ type gen struct {
 	mapN   int // max symbolic map entries
 	pick   int // number of fields offered inside nested messages
 	seed   int
+	smallPayload int
+	lightAny bool // nested builders offer no unknown record (decode-step pre-states)
 }
 
 func (g *gen) p(format string, a ...interface{}) {
@@ -377,13 +379,19 @@ func (g *gen) anyMessage(m *Message) {
 	g.p("// vhAny_%s builds a %s with one symbolic active field (or unknown fields).", m.GoName, m.GoName)
 	g.p("func vhAny_%s(p string, d int) *%s {", m.GoName, m.GoName)
 	g.p("\tx := &%s{}", m.GoName)
-	g.p("\tswitch vhChoice(p+\".field\", %d) {", len(fs)+1)
+	nopt := len(fs) + 1
+	if g.lightAny {
+		nopt = len(fs)
+	}
+	g.p("\tswitch vhChoice(p+\".field\", %d) {", nopt)
 	for i, f := range fs {
 		g.p("\tcase %d:", i)
 		g.p("\t\tvhBuild_%s_%s(x, p+\".%s\", d)", m.GoName, f.GoName, f.GoName)
 	}
-	g.p("\tcase %d:", len(fs))
-	g.p("\t\tx.unknownFields = vhUnknown_%s(p + \".unk\")", m.GoName)
+	if !g.lightAny {
+		g.p("\tcase %d:", len(fs))
+		g.p("\t\tx.unknownFields = vhUnknown_%s(p + \".unk\")", m.GoName)
+	}
 	g.p("\t}")
 	g.p("\treturn x")
 	g.p("}")
